@@ -638,9 +638,23 @@ class Translator:
                 catches_all = any(
                     h.type is None or (dotted(h.type) or '').split('.')[-1]
                     in ('Exception', 'BaseException') for h in s.handlers)
+                before = st['alive']
                 self.block(s.body, fi, var, env, st,
                            in_try='all' if catches_all else 'marshalling',
                            depth=depth)
+                # a handler that prepares its message by unpacking a split
+                # of the caught text into a fixed number of names fails
+                # (ValueError) when the text - which quotes the rejected name
+                # - has another number of parts: the rejection then comes
+                # out as the wrong exception
+                for h in s.handlers:
+                    why = self.handler_can_fail(h)
+                    if why:
+                        st['wrong'].append((
+                            before & st['alive'].complement(),
+                            'its handler can fail before it converts (%s), '
+                            'for rejected names that contain the separator'
+                            % why))
                 if s.orelse:
                     self.block(s.orelse, fi, var, env, st, in_try, depth)
                 continue
@@ -671,6 +685,18 @@ class Translator:
             raise AnalysisError('statement outside the supported fragment '
                                 'in %s: %s' % (fi.qualname,
                                                ast.unparse(s)[:80]))
+
+    @staticmethod
+    def handler_can_fail(h):
+        for st in h.body[:-1]:
+            if isinstance(st, ast.Assign) and len(st.targets) == 1 and \
+                    isinstance(st.targets[0], (ast.Tuple, ast.List)) and \
+                    isinstance(st.value, ast.Call) and \
+                    isinstance(st.value.func, ast.Attribute) and \
+                    st.value.func.attr in ('split', 'rsplit', 'splitlines'):
+                return '%s unpacks into %d names' % (
+                    ast.unparse(st.value)[:40], len(st.targets[0].elts))
+        return None
 
     def handler_converts(self, h):
         """except ...: raise MarshallingError(...)"""
